@@ -340,6 +340,8 @@ def use_rules(ctx, ci, Gd, myH, n, k, d, is_hamming):
 
         res = explore(run_c)
         n_runs += 1
+        if any(kd == "abort" for _, (kd, _) in res):
+            raise AnalysisError(f"{ci.qualname}.check_and_correct, error pattern {pat}: " + "; ".join(f"{kd}:{vv}" for _, (kd, vv) in res)[:200])
         if len(res) != 1 or res[0][1][0] != "ok":
             bad.append((pat, "paths: " + "; ".join(f"{kd}:{vv}" for _, (kd, vv) in res)[:120]))
             continue
